@@ -24,6 +24,7 @@ type c03Arg struct {
 	Partial    bool  `json:"partial"` // the client holds only piece 0
 	Depth      int   `json:"depth"`
 	Layout     int   `json:"layout"`
+	Lost       bool  `json:"lost"` // the first file was lost while the torrent was stopped (after it had seeded): restart, then requests
 	Twin       bool  `json:"twin"` // a second seeding torrent (same layout, other content) shares the session's read cache
 }
 
@@ -90,6 +91,21 @@ func mkC03() *Scenario {
 		}
 		if s.Status != want {
 			core.HarnessError("c03 setup: status %s, want %s (bitfield %x)", s.Status, want, s.Bitfield)
+		}
+		if arg.Lost {
+			// seeded once (the resume data says: everything), stopped, the first file disappears, started again
+			w.CmdStop()
+			w.drain(100)
+			w.Advance(6 * time.Second)
+			w.drain(100)
+			w.Store.Mutate(id, func(files map[string]*MemFile) { delete(files, g.StoragePath(0)) })
+			w.CmdStart()
+			w.drain(300)
+			s = w.Tor.VerifState()
+			if s.Status != "Downloading" && s.Status != "Seeding" {
+				core.HarnessError("c03 setup: status %s after losing a file and restarting", s.Status)
+			}
+			w.Count("lost_file_runs", 1)
 		}
 		if err := p1.ConnectIn(s.Port, g.InfoHash); err != nil {
 			core.HarnessError("c03 setup: connect: %v", err)
@@ -369,6 +385,10 @@ func TestC03Lab(t *testing.T) {
 				}
 			}
 		}
+	}
+	// the first file of a seeded multi-file torrent is lost while stopped: only verified pieces may be served afterwards
+	for _, fast := range []bool{false, true} {
+		runs = append(runs, Run{Scenario: "c03", Arg: c03Arg{CacheBlock: 16384, CacheSize: 256 << 20, Fast: fast, Depth: 2, Layout: 1, Lost: true}, Budget: 0, MaxExec: 200000})
 	}
 	// two torrents, one read cache: every history of 2 (thorough 3) requests over {torrent A, twin B} x 7 positions
 	for _, cb := range []int64{16384, 131072} {
